@@ -21,6 +21,11 @@ CLAIMED = {
          TB + "Time is virtual (the script says how long each poll lasted); kernel honesty (a poll never overstays its time-out) is a hypothesis stated on the trace. "
          "TLS operations: C18.",
          "Coq proof (deadline calculus invariants for all scripts) + poll/clock trace correspondence under a virtual clock"),
+ "C08": ("proof", "Theorems stop_wakes_poll, run_returns_iff_flag, run_needs_stop, stop_before_entry, stop_request_visible over the protocol LTS with stoppers as independent agents (any thread, "
+         "task/handler, signal handler) and Run() entered any number of times. Correspondence: Stop() before thread start-up reaches Run(), at the flag check, inside poll, at step exit, from tasks, "
+         "repeated Run; traces replayed on the extracted model (the flag set at the very beginning of Stop() and the loop check right after leaving pauseMtx are atomic under the scheduler).", "5 C08",
+         TB + "A signal handler interrupting the driver thread is modelled as an independent stopper; the EINTR side is C16.",
+         "Coq proof (stop-flag invariant for arbitrary interleavings) + deterministic-scheduler exploration replayed on the extracted model"),
  "C09": ("proof", "Theorems sendto_all_or_nothing, sendto_failure_reported, recvfrom_faithful for every script; correspondence on basic/buffered UDP sockets with "
          "position-coded datagrams, destinations and sources checked at the libc boundary and at the API.", "5 C09",
          TB + "Loopback UDP as an ordered, loss-free, truncating datagram queue is trusted.",
@@ -43,6 +48,18 @@ CLAIMED = {
          "readiness orders, stream segmentations, closes/errors at any point; handler events (kind, socket, payload checked byte-wise, peer address) compared and monitored.", "5 C03",
          TB + "Kernel readiness semantics trusted. 'Handlers run on the stepping thread' is structural in the model (handlers are invoked from step only).",
          "Coq proof (selection function, list alignment) + handler-event correspondence under a scripted virtual OS"),
+ "C04": ("proof", "Theorems over the hand-over protocol LTS (SyncModel: one driver, ANY number of management calls and Stop() calls, every interleaving at the granularity of lock operations "
+         "and system calls): mutual_exclusion, quiescent_during_management, handlers_serial, pause_exclusive, from an inductive invariant. Tie to the code: the library runs under a deterministic "
+         "scheduler (virtual mutexes, schedule point before every mutex op / poll / pipe I/O / send / recv); each execution's synchronisation trace is replayed on the extracted model "
+         "(AcceptSync) and must be a run of it (accepted_trace_is_model_run). Handlers stamp enter/exit with schedule points inside; overlap and use-after-return are monitored; ASan+UBSan build.", "5 C04",
+         TB + "Partial: that every access to shared state lies inside the critical sections is visible only through the lock operations of each entry point and the sanitizer build, not proved about the C++. "
+         "One thread runs at a time under the scheduler, so data races below lock granularity are not explored.",
+         "Coq proof (inductive invariant of the lock protocol for arbitrary N) + replay of real executions under a deterministic scheduler on the extracted model"),
+ "C05": ("proof", "Theorems no_deadlock (lost-wake-up freedom, without any socket event), bounded_yield (at most one further driver step once the caller owns pauseMtx), wakeup_not_lost, "
+         "accepted_trace_is_model_run over the same LTS. Correspondence: multi-threaded scenarios (ToDo management, Send from several producers and from handlers, destruction, Stop) under random, "
+         "bursty, driver-heavy and users-first schedules; DEADLOCK = nothing enabled with unfinished users; every trace replayed on the extracted model.", "5 C05",
+         TB + "'The call returns' additionally needs the OS mutex to grant a contended lock eventually (fairness, stated). change_in_effect is covered by the sim checks (poll list / time-out recomputed every step: C02, C06, C07).",
+         "Coq proof (invariant => no deadlock for arbitrary N) + deterministic-scheduler exploration replayed on the extracted model"),
  "C06": ("proof", "Theorems over every history of Insert/Remove/Move/pop-when-due on the driver's list: insert_sorted, insert_stable (ties keep scheduling order), remove_sorted, "
          "move_single_entry, cancel_prevents, exactly_once, todos_invariant_all_histories, front_is_minimum (due and earliest), never_early, refines_pending. Correspondence: ToDo "
          "histories incl. operations from inside tasks, under a virtual clock with model-guided adaptive scripts; compared: task executions, clock readings, poll time-outs, the list itself.", "5 C06",
